@@ -318,3 +318,7 @@ def _tree_states(c, meth):
             if meth == "insert":
                 kw["index"] = 0
             yield kw, uni, desc + " into a list over %s, strategy %s" % ([t.label for t in ns2], strat)
+
+
+def replay(ctx, rec):
+    return dreplay.replay_state_record(rec, CONTRACTS, _states)
